@@ -32,6 +32,11 @@ mod tablescmd;
 mod fencmd;
 mod sancmd;
 mod seecmd;
+mod ttcmd;
+mod timecmd;
+mod pickercmd;
+mod evalcmd;
+mod searchcmd;
 
 fn main() {
     // Panics inside the code under test are data: keep the default hook quiet and let
@@ -53,6 +58,11 @@ fn main() {
         "fen" => fencmd::main(rest),
         "san" => sancmd::main(rest),
         "see" => seecmd::main(rest),
+        "tt" => ttcmd::main(rest),
+        "time" => timecmd::main(rest),
+        "picker" => pickercmd::main(rest),
+        "eval" => evalcmd::main(rest),
+        "search" => searchcmd::main(rest),
         other => {
             eprintln!("unknown subcommand {other}");
             2
